@@ -76,9 +76,9 @@ func (tt *testTrie) match(components []string) bool {
 		}
 		// See if there's a double-wildcard that may match the empty remaining components.
 		child := tt.children["**"]
-		if child != nil && child.present {
-			child.matched.Add(1)
-			return true
+		if child != nil {
+			// (consecutive double-wildcards can all match zero components)
+			return child.match(components)
 		}
 		return false
 	}
